@@ -44,7 +44,7 @@ unit(name="SrcLcp", props="property C03", file=SA_FILE, dialect="gensa",
                      params=[("text", "&[u8]"), ("pos", "SA")], ret="LCPArray",
                      locals={"rank": "Vec<usize>", "lcp": "Vec<isize>", "l": "usize"},
                      fuel=["n + 1"],
-                     theorem="RbV.Thm.GenSrcLcp.lcp_eq_model")])
+                     theorem="RbV.Thm.GenSrcLcp.lcp_source_exact")])
 
 # `transform_text` and its helpers.  `T` (u8/u16/u32/u64 by the dispatch of `suffix_array`) is read at `u64` and
 # `num_traits::cast::<usize, T>` as the abstract `castT : Nat → Option Nat` (contract in the theorems: value-preserving
